@@ -745,3 +745,55 @@ theorem natOfDigits_replicate_zero (r m : Nat) : natOfDigits r (List.replicate m
     rw [List.replicate_succ, natOfDigits_cons, ih]; simp
 
 end GojaModel.C12
+
+namespace GojaModel.C12
+
+/-! ## literal shapes read back -/
+
+theorem read_plain (x : Nat) (xs : List Nat) (hx : x ≠ 0) (hd : ∀ d ∈ x :: xs, d < 10) :
+    readDigits (digitsStr (x :: xs)) = some (x :: xs, (((x :: xs).length : Nat) : Int)) := by
+  have hsc := scanDec_nodot (x :: xs) [] 0 false hd (by simp) trivial scanFrac_nil scanExp_nil
+  rw [List.append_nil] at hsc
+  have := readDigits_of hsc rfl (x :: xs) (by simp only [List.append_nil]; exact dropZeros_cons _ hx) (by simp)
+  rw [this]
+  simp
+
+theorem read_point (x : Nat) (xs : List Nat) (i : Nat) (hx : x ≠ 0) (hd : ∀ d ∈ x :: xs, d < 10)
+    (hi : 0 < i) (hik : i ≤ (x :: xs).length) :
+    readDigits (digitsStr ((x :: xs).take i) ++ '.' :: digitsStr ((x :: xs).drop i)) = some (x :: xs, (i : Int)) := by
+  have hA : ∀ d ∈ (x :: xs).take i, d < 10 := fun d hm => hd d (List.mem_of_mem_take hm)
+  have hB : ∀ d ∈ (x :: xs).drop i, d < 10 := fun d hm => hd d (List.mem_of_mem_drop hm)
+  have hAne : ((x :: xs).take i).isEmpty = false := by
+    cases i with
+    | zero => omega
+    | succ j => simp
+  have hsc := scanDec_dot ((x :: xs).take i) ((x :: xs).drop i) [] 0 false hA hB hAne trivial scanExp_nil
+  rw [List.append_nil] at hsc
+  have := readDigits_of hsc rfl (x :: xs)
+    (by simp only [List.take_append_drop]; exact dropZeros_cons _ hx) (by simp)
+  rw [this]
+  simp only [List.length_drop, List.length_cons] at *
+  congr 2
+  omega
+
+theorem read_small (x : Nat) (xs : List Nat) (z : Nat) (hx : x ≠ 0) (hd : ∀ d ∈ x :: xs, d < 10) :
+    readDigits ('0' :: '.' :: (zeros z ++ digitsStr (x :: xs))) = some (x :: xs, -(z : Int)) := by
+  have hbody : ('0' :: '.' :: (zeros z ++ digitsStr (x :: xs)))
+      = digitsStr [0] ++ '.' :: (digitsStr (List.replicate z 0 ++ (x :: xs)) ++ []) := by
+    rw [zeros_eq, digitsStr_append, List.append_nil]; rfl
+  rw [hbody]
+  have hsc := scanDec_dot [0] (List.replicate z 0 ++ (x :: xs)) [] 0 false (by simp)
+    (all_lt_append (all_lt_replicate z) hd) (by simp) trivial scanExp_nil
+  have := readDigits_of hsc rfl (x :: xs)
+    (by
+      show dropZeros ([0] ++ (List.replicate z 0 ++ (x :: xs))) = x :: xs
+      rw [show [0] ++ (List.replicate z 0 ++ (x :: xs)) = List.replicate (z + 1) 0 ++ (x :: xs) by
+        simp [List.replicate_succ]]
+      rw [dropZeros_replicate]; exact dropZeros_cons _ hx)
+    (by simp)
+  rw [this]
+  simp only [List.length_append, List.length_replicate, List.length_cons] at *
+  congr 2
+  omega
+
+end GojaModel.C12
